@@ -84,7 +84,10 @@ func (c *Classifier) match(in io.Reader) (Results, error) {
 		}
 	}
 
-	if len(firstPass) == 0 {
+	// An input without any tokens cannot match anything. (With a threshold of
+	// 0 every non-empty corpus document passes the first pass, so this case
+	// must be handled here to avoid indexing into an empty token list below.)
+	if len(firstPass) == 0 || len(id.Tokens) == 0 {
 		return Results{
 			Matches:         nil,
 			TotalInputLines: 0,
